@@ -42,6 +42,7 @@ type WFile struct {
 	Layout Layout  `json:"layout"`
 	Fills  []WFill `json:"fills,omitempty"`
 	Absent bool    `json:"absent,omitempty"`
+	Link   bool    `json:"link,omitempty"` // the path is a symbolic link to the real file (kept outside the bases)
 }
 
 func (w WFile) path(e *Env) string { return filepath.Join(e.Dir, w.Base, w.Rel) }
@@ -54,6 +55,16 @@ func buildFile(e *Env, w WFile) error {
 	p := w.path(e)
 	if err := os.MkdirAll(filepath.Dir(p), 0o755); err != nil {
 		return err
+	}
+	if w.Link {
+		real := filepath.Join(e.Dir, "real", w.Base, w.Rel)
+		if err := os.MkdirAll(filepath.Dir(real), 0o755); err != nil {
+			return err
+		}
+		if err := os.Symlink(real, p); err != nil {
+			return err
+		}
+		p = real
 	}
 	db, err := w.Layout.create(p, wt.WithoutFlock())
 	if err != nil {
@@ -423,6 +434,7 @@ type cliRunner struct {
 func newCliRunner(e *Env, schedSeed uint64, preemptP float64, remote bool) *cliRunner {
 	r := &cliRunner{e: e, remote: remote}
 	r.s = NewSched(schedSeed, nSites)
+	r.s.MaxYields = 40_000_000 // a view of a 175 000-point archive passes ~3 M statements per side
 	r.s.PreemptP = preemptP
 	if e.SchedRec != nil && e.SchedRec.Replay {
 		r.s.SetReplay(e.SchedRec.Choices, e.SchedRec.Preempts)
@@ -496,7 +508,9 @@ func (r *cliRunner) run(cmds []Cmd, tags []string) []*cmdResult {
 	var fds []int
 	prevTrace := r.s.LockTrace
 	r.s.LockTrace = func(ev string, g *G, fd int) {
-		if ev == "acquired" {
+		if ev == "acquired" && !strings.HasPrefix(g.Name, "srv:") {
+			// descriptors of the command's own goroutines; the server is one
+			// long-lived process, what its handlers leak stays locked
 			fds = append(fds, fd)
 		}
 		if prevTrace != nil {
